@@ -48,6 +48,7 @@ type lease4 struct {
 	dbReads       int
 	lastClock     map[int64]int64 // dg id -> first clock read by its handler
 	faultsAtStart int64
+	faultTagsSeen int
 }
 
 type storedRow struct {
@@ -216,7 +217,7 @@ func (s *lease4) Plan(w *World) {
 }
 
 func (s *lease4) armCrash(w *World) {
-	if w.Sim.CrashArmed() || !w.Up() && w.T.Draw(2) == 0 {
+	if w.Inc >= 10 || w.Sim.CrashArmed() || !w.Up() && w.T.Draw(2) == 0 {
 		return
 	}
 	var sites []bool
@@ -257,8 +258,8 @@ func (s *lease4) OnCrash(w *World, inc int, t *simrt.Task) {
 	}
 	w.Sim.After(delay, func() {
 		w.StartServer()
-		// possibly crash again during start-up
-		if w.T.Draw(3) == 0 {
+		// possibly crash again during start-up (bounded: every incarnation leaves its abandoned goroutines behind)
+		if w.Inc < 10 && w.T.Draw(3) == 2 {
 			w.Sim.ArmCrash(w.Sim.Steps+1+int64(w.T.Draw(150)), nil, w.onCrash)
 		}
 	})
@@ -332,13 +333,7 @@ func (s *lease4) OnInvoke(w *World, dg *DG, inv *Invocation) {
 	if _, ok := s.firstSeen[mac]; !ok {
 		s.firstSeen[mac] = dg.DeliveredAt
 	}
-	for _, tag := range w.Sim.SQLFaultTags {
-		if tag == dg.ID && !s.volatile[mac] {
-			// fault-on variant: the store refused this client's lease; the binding lives in memory only
-			s.volatile[mac] = true
-			w.Probe("range.save_failed")
-		}
-	}
+	s.applyFaultTags(w)
 	if inv.RespNil {
 		if at, ok := s.toldAt[mac]; ok && at < dg.DeliveredAt && !s.volatile[mac] {
 			w.Violate("C02", "bound-client-not-served", "client %q holds %s but the range plugin gave its %s (dg%d) nothing", mac, s.told[mac], dg.Req4.MessageType(), dg.ID)
@@ -476,8 +471,27 @@ func canonMAC(s string) string {
 	return hw.String()
 }
 
+// applyFaultTags marks the clients whose handler met an injected store failure as volatile. It goes by the
+// datagram the failing call belonged to, not by the handler's result: the handler may still be running (or be
+// killed by a crash) when the database is next examined, and another request of the same client may already
+// have been answered from the in-memory record the failed save left behind.
+func (s *lease4) applyFaultTags(w *World) {
+	for ; s.faultTagsSeen < len(w.Sim.SQLFaultTags); s.faultTagsSeen++ {
+		dg := w.dgByID[w.Sim.SQLFaultTags[s.faultTagsSeen]]
+		if dg == nil || dg.Req4 == nil {
+			continue
+		}
+		mac := macKey(dg.Req4.ClientHWAddr)
+		if !s.volatile[mac] {
+			s.volatile[mac] = true
+			w.Probe("range.save_failed")
+		}
+	}
+}
+
 // checkDB is C03's oracle on the live database file.
 func (s *lease4) checkDB(w *World, when string) {
+	s.applyFaultTags(w)
 	s.dbReads++
 	rows, problems, err := s.readDB(s.dbPath)
 	if err != nil {
@@ -519,6 +533,7 @@ func (s *lease4) snapshotRestart(w *World, why string) {
 		return
 	}
 	s.collectClockReads(w)
+	s.applyFaultTags(w)
 	snap := filepath.Join(w.Dir, fmt.Sprintf("snap-%d.sqlite3", w.Sim.Steps))
 	if err := copyFile(s.dbPath, snap); err != nil {
 		return
